@@ -844,9 +844,13 @@ FixedVArray<T>::register_(const char* doc)
 
         boost::python::class_<typename FixedVArray<T>::SizeHelper,boost::noncopyable> sizeHelper_class ("SizeHelper", boost::python::no_init);
         sizeHelper_class
-            .def("__getitem__", &FixedVArray<T>::SizeHelper::getitem)
-            .def("__getitem__", &FixedVArray<T>::SizeHelper::getitem_mask)
+            //  Boost.Python tries overloads in reverse order of registration
+            // and getitem_slice takes a PyObject* (it matches any key), so it
+            // has to be registered first: otherwise size[i] and size[mask]
+            // never reach their own overloads.
             .def("__getitem__", &FixedVArray<T>::SizeHelper::getitem_slice)
+            .def("__getitem__", &FixedVArray<T>::SizeHelper::getitem_mask)
+            .def("__getitem__", &FixedVArray<T>::SizeHelper::getitem)
 
             .def("__setitem__", &FixedVArray<T>::SizeHelper::setitem_scalar)
             .def("__setitem__", &FixedVArray<T>::SizeHelper::setitem_scalar_mask)
